@@ -445,7 +445,7 @@ func c11TagIn(tags, tag string) bool {
 
 // invariants holds at every quiescent state.
 func (in *c11Inst) invariants(o *c11Obs) error {
-	sy, cfg := in.sy, in.sy.cfg
+	cfg := in.sy.cfg
 	// circuit counters = open circuits per peer (as source or destination)
 	known := map[string]bool{}
 	for c, cs := range cfg.Clients {
@@ -460,21 +460,19 @@ func (in *c11Inst) invariants(o *c11Obs) error {
 		}
 	}
 	for c, cs := range cfg.Clients {
-		id := sy.ids[c].id
-		_ = id
 		if in.circuitsOf(c) == 0 && c11TagIn(o.Tags[cs.Label], relayHopTag) {
 			return seqmc.Violation("hop-tag-left-without-circuit", "%s has no open circuit but still carries the tag %q; %s", cs.Label, relayHopTag, o)
 		}
 		if _, live := in.rsv[c]; !live {
 			why := in.ended[c]
+			if _, listed := o.Rsvp[cs.Label]; listed && why != "" {
+				return seqmc.Violation("reservation-kept-after-"+why, "the reservation of %s ended (%s) but Relay.rsvp still lists it; %s", cs.Label, why, o)
+			}
 			if c11TagIn(o.Tags[cs.Label], c11ResTag) {
 				if why == "" {
 					why = "never-granted"
 				}
 				return seqmc.Violation("reservation-tag-left-after-"+why, "%s holds no reservation (%s) but still carries the tag %q; %s", cs.Label, why, c11ResTag, o)
-			}
-			if _, listed := o.Rsvp[cs.Label]; listed && why != "" {
-				return seqmc.Violation("reservation-kept-after-"+why, "the reservation of %s ended (%s) but Relay.rsvp still lists it; %s", cs.Label, why, o)
 			}
 		}
 	}
